@@ -144,15 +144,21 @@ def plan(tier, seed):
         ("DG all digraphs N=1", "DG", {"n": 1, "loops": True, "walk": True, "workers": 1}),
         ("DG all digraphs with self-loops N=2", "DG", {"n": 2, "loops": True, "walk": True, "workers": 1}),
         ("DG all digraphs with self-loops N=3", "DG", {"n": 3, "loops": True, "walk": True, "workers": 2}),
-        ("DG all digraphs N=4", "DG", {"n": 4, "workers": 6}),
-        ("BOND all graphs x outcomes N=3", "BOND", {"n": 3, "probs": P5, "walk": True, "workers": 1}),
+        ("DG all digraphs N=4", "DG", {"n": 4, "workers": 4}),
         ("BOND all graphs x outcomes N=4", "BOND", {"n": 4, "probs": P7 if tier == "thorough" else P5, "workers": 4}),
-        ("RULE all graphs x tables N=3", "RULE", {"n": 3, "walk": True, "workers": 1}),
-        ("RULE all graphs x tables N=4", "RULE", {"n": 4, "workers": 6}),
+        ("RULE all graphs x tables N=4", "RULE", {"n": 4, "workers": 4}),
         ("TYPED all graphs x types x tables N=3", "TYPED", {"n": 3, "types": (1, 2), "workers": 4}),
-        ("TIMING all graphs x durations x delays N=2", "TIMING", {"n": 2, "vals": (1, 2, INF3), "inf": INF3, "walk": True, "workers": 1}),
-        ("TIMING all graphs x durations x delays N=3", "TIMING", {"n": 3, "vals": (1, 2, INF3), "inf": INF3, "workers": 6}),
+        ("TIMING all graphs x durations x delays N=3", "TIMING", {"n": 3, "vals": (1, 2, INF3), "inf": INF3, "workers": 4}),
     ]
+    if tier == "thorough":
+        jobs += [
+            ("BOND all graphs x outcomes N=2", "BOND", {"n": 2, "probs": P7, "walk": True, "workers": 1}),
+            ("BOND all graphs x outcomes N=3", "BOND", {"n": 3, "probs": P7, "walk": True, "workers": 1}),
+            ("RULE all graphs x tables N=2", "RULE", {"n": 2, "walk": True, "workers": 1}),
+            ("RULE all graphs x tables N=3", "RULE", {"n": 3, "walk": True, "workers": 1}),
+            ("TYPED all graphs x types x tables N=2, 3 types", "TYPED", {"n": 2, "types": (1, 2, 3), "walk": True, "workers": 4}),
+            ("TIMING all graphs x durations x delays N=2", "TIMING", {"n": 2, "vals": (1, 2, 3, 4), "inf": 4, "walk": True, "workers": 1}),
+        ]
     if tier == "thorough":
         jobs += sampled_jobs(seed)
     return jobs
